@@ -70,9 +70,8 @@ Print Assumptions C07_cyclic_uses_depth_first.
 (* a ring-shaped molecule declared cyclic: for a ring of ANY size n >= 3, any node keys (node k, k < n, are the residues
    in ring order from the root), any order of the two neighbours in every adjacency list, the depth-first search tree
    from the root is a path through all n residues that starts with the root's first-listed neighbour a and ends at its
-   second-listed neighbour b; the pair restrained by _initialize_cylces -- (first edge's source, last edge's target) --
-   is (root, b), which the ring joins by the one edge the tree leaves out (the closing edge) *)
-Theorem C07_ring_closing_pair : forall (n : nat) (adj : Z -> list Z) (node : nat -> Z),
+   second-listed neighbour b, and the ring joins the root and b by the one edge the tree leaves out (the closing edge) *)
+Theorem C07_ring_search_tree : forall (n : nat) (adj : Z -> list Z) (node : nat -> Z),
   (3 <= n)%nat -> is_ring n adj node ->
   exists a b, adj (node 0%nat) = [a; b] /\ a <> b /\
     cycle_pair adj n (node 0%nat) = Some (node 0%nat, b) /\
@@ -82,17 +81,49 @@ Theorem C07_ring_closing_pair : forall (n : nat) (adj : Z -> list Z) (node : nat
     ~ In (b, node 0%nat) (tree_edges adj n (node 0%nat)) /\
     (forall j, (j < n)%nat -> j <> 0%nat -> In (node j) (map snd (tree_edges adj n (node 0%nat)))).
 Proof. exact (fun n adj node Hn R => ring_cycle_pair n adj Hn node R). Qed.
+Print Assumptions C07_ring_search_tree.
+
+(* the pair _initialize_cylces restrains on such a ring, for ANY listing of the ring's edges (any order, either direction
+   each, as long as the closing edge is among them): (root, b), the two residues joined by the closing edge *)
+Theorem C07_ring_closing_pair : forall (n : nat) (adj : Z -> list Z) (node : nat -> Z) (edges : list (Z * Z)),
+  (3 <= n)%nat -> is_ring n adj node ->
+  (forall e, In e edges -> (exists k, (k < n)%nat /\ fst e = node k) /\ In (snd e) (adj (fst e))) ->
+  exists a b, adj (node 0%nat) = [a; b] /\ a <> b /\
+    ((In (node 0%nat, b) edges \/ In (b, node 0%nat) edges) ->
+     closing_pair adj edges n (node 0%nat) = Some (node 0%nat, b)) /\
+    ~ In (node 0%nat, b) (tree_edges adj n (node 0%nat)) /\ ~ In (b, node 0%nat) (tree_edges adj n (node 0%nat)).
+Proof. exact (fun n adj node edges Hn R H => ring_closing_pair n adj Hn node edges R H). Qed.
 Print Assumptions C07_ring_closing_pair.
 
-(* (T) the pair that is restrained: first edge's source and last edge's target of the search tree, d = 0 *)
-Theorem C07_cycle_pair_is_first_source_last_target :
-  (cycle_nodes_def = "(list(molecule.search_tree.edges)[0][0], list(molecule.search_tree.edges)[-1][1])" /\
+(* for ANY molecule (a ring that carries ligands or tails as well): when the search tree leaves an edge of the molecule
+   out, the restrained pair is such an edge, its ends in the order the tree reached them; only when the tree holds every
+   edge (no ring) it is the pair of tree ends *)
+Theorem C07_restrained_pair_is_an_edge_left_out : forall (n : nat) (adj : Z -> list Z) edges root p,
+  closing_pair adj edges n root = Some p ->
+  (exists e, In e edges /\ in_tree (tree_edges adj n root) e = false /\ p = orient (tree_nodes adj n root) e) \/
+  ((forall e, In e edges -> in_tree (tree_edges adj n root) e = true) /\ cycle_pair adj n root = Some p).
+Proof. exact (fun n adj edges root p => closing_pair_spec n adj edges root p). Qed.
+Print Assumptions C07_restrained_pair_is_an_edge_left_out.
+
+(* (T) the pair that is restrained, as the source defines it, d = 0 *)
+Theorem C07_cycle_pair_definition :
+  (cycle_tree_def = "molecule.search_tree" /\
+   cycle_order_def = "list(tree.nodes)" /\
+   cycle_closing_def = "[tuple(sorted(edge, key=order.index)) for edge in molecule.edges if not tree.has_edge(*edge) and (not tree.has_edge(*edge[::-1]))]" /\
+   cycle_ends_def = "(list(tree.edges)[0][0], list(tree.edges)[-1][1])" /\
+   cycle_nodes_def = "closing[0] if closing else ends" /\
    cycle_restraint_def = "(0.0, tolerance)")%string.
 Proof. exact gen_cycle_pair. Qed.
-Print Assumptions C07_cycle_pair_is_first_source_last_target.
+Print Assumptions C07_cycle_pair_definition.
 
 Example C07_ring_nonvacuous : is_ring 5 ex_ring_adj ex_ring_node /\ cycle_pair ex_ring_adj 5 7 = Some (7, 11)%Z.
 Proof. exact (conj ex_ring_is_ring (proj1 ex_ring_pair)). Qed.
+
+(* a ligand on the residue the search reaches last: the tree ends at the ligand, the restrained pair is the ring's closing edge *)
+Example C07_ring_with_ligand_nonvacuous :
+  cycle_pair ex_lig_adj 6 7 = Some (7, 99)%Z /\
+  closing_pair ex_lig_adj [(7, 3); (7, 11); (3, 20); (20, 5); (5, 11); (11, 99)]%Z 6 7 = Some (7, 11)%Z.
+Proof. exact ex_ring_with_ligand. Qed.
 
 (* sampled end-to-end distances lie between one step and the contour length *)
 Theorem C07_ee_samples_in_range :
